@@ -499,6 +499,11 @@ pub fn run(tier: Tier, seed: u64) -> i32 {
                 while s.eng.thread_count() > 1 && std::time::Instant::now() < t_end {
                     s.eng.drain(Duration::from_micros(300));
                 }
+                if s.eng.thread_count() > 1 {
+                    // a filler's search thread is still alive: its late lines could land in the probe
+                    acc.count("long_session_given_up_search_thread_still_alive", 1);
+                    return acc;
+                }
                 if !s.isready(WATCHDOG) {
                     acc.inconclusive.push("long session: no readyok before the probe".into());
                     return acc;
